@@ -2,7 +2,7 @@
 A component is a module exposing MODULES, THEOREMS and correspond(ctx)."""
 import importlib
 
-COMPONENTS = ["q1_udpout", "q1_crypto", "q1_tlsmsgs", "q2a_dissect", "q2b_session"]
+COMPONENTS = ["q1_udpout", "q1_crypto", "q1_tlsmsgs", "q2a_dissect", "q2b_session", "quic_pipeline_corr"]
 
 
 def load(names=COMPONENTS):
